@@ -103,7 +103,8 @@ theorem dispatch_p2sh_p2wpkh (h20 s20 : Bytes) (hl : h20.length = 20) (hs : s20.
       = (Algo.segwit, p2pkhOf h20) := by
   simp [sighashDispatch, scriptType, truthy, hl, hs, p2pkhOf]
 
-/-- P2WSH: script code is the witness script -/
+/-- P2WSH: script code is the witness script. `hnot` is an explicit exclusion (a witness script of P2WPKH shape, where
+    embit deviates from BIP143): see `dispatch_p2wsh_wpkh_shaped_deviates` -/
 theorem dispatch_p2wsh (h32 ws : Bytes) (hl : h32.length = 32) (hne : ws ≠ [])
     (hnot : scriptType ws ≠ some "p2wpkh") (wu : Bool) :
     sighashDispatch ([0x00, 0x20] ++ h32) (some ws) none wu = (Algo.segwit, ws) := by
@@ -114,7 +115,7 @@ theorem dispatch_p2wsh (h32 ws : Bytes) (hl : h32.length = 32) (hne : ws ≠ [])
   simp
   intro h; exact absurd h hnot
 
-/-- P2SH-P2WSH -/
+/-- P2SH-P2WSH. `hnot`: explicit exclusion, see `dispatch_p2sh_p2wsh_wpkh_shaped_deviates` -/
 theorem dispatch_p2sh_p2wsh (s20 h32 ws : Bytes) (hs : s20.length = 20) (hl : h32.length = 32) (hne : ws ≠ [])
     (hnot : scriptType ws ≠ some "p2wpkh") (wu : Bool) :
     sighashDispatch ([0xa9, 0x14] ++ s20 ++ [0x87]) (some ws) (some ([0x00, 0x20] ++ h32)) wu = (Algo.segwit, ws) := by
@@ -125,12 +126,51 @@ theorem dispatch_p2sh_p2wsh (s20 h32 ws : Bytes) (hs : s20.length = 20) (hl : h3
   simp
   intro h; exact absurd h hnot
 
+/-! #### the explicit exclusion `scriptType ws ≠ some "p2wpkh"` (audit A13)
+
+  `dispatch_p2wsh`, `dispatch_p2sh_p2wsh` and `dispatch_p2sh_legacy` exclude a witness script / redeem script that
+  itself has the 22-byte P2WPKH shape `0014‖h20`. This is an EXPLICIT EXCLUSION of the property, not a proof gap: in
+  that region embit deviates from BIP143. BIP143 prescribes the witness script itself as script code of a P2WSH input;
+  embit applies its P2WPKH rewriting to whatever script it selected (`if sc.script_type() == "p2wpkh": sc =
+  p2pkh_from_p2wpkh(sc)`) and hashes `76a914‖h20‖88ac` instead. The witness theorems below show the deviation at a
+  concrete point inside the excluded region. It is unspendable in practice either way (as a witness script `0014‖h20`
+  leaves `h20` on the stack — no signature is ever checked against this digest), so no code change and no finding; the
+  exclusion stays a hypothesis of the three theorems. -/
+
+/-- the P2WPKH-shaped witness script `0014‖aa…aa` used by the witnesses -/
+def exWpkhShaped : Bytes := [0x00, 0x14] ++ List.replicate 20 0xaa
+
+/-- witness inside the excluded region, P2WSH: the conclusion of `dispatch_p2wsh` FAILS — the script code embit signs
+    is the P2PKH conversion, not the witness script BIP143 prescribes (all other hypotheses of `dispatch_p2wsh` hold) -/
+theorem dispatch_p2wsh_wpkh_shaped_deviates :
+    scriptType exWpkhShaped = some "p2wpkh" ∧ exWpkhShaped ≠ [] ∧ (List.replicate 32 (1 : UInt8)).length = 32
+    ∧ sighashDispatch ([0x00, 0x20] ++ List.replicate 32 1) (some exWpkhShaped) none true
+        = (Algo.segwit, p2pkhOf (List.replicate 20 0xaa))
+    ∧ sighashDispatch ([0x00, 0x20] ++ List.replicate 32 1) (some exWpkhShaped) none true
+        ≠ (Algo.segwit, exWpkhShaped) := by decide
+
+/-- the same for P2SH-P2WSH … -/
+theorem dispatch_p2sh_p2wsh_wpkh_shaped_deviates :
+    sighashDispatch ([0xa9, 0x14] ++ List.replicate 20 2 ++ [0x87]) (some exWpkhShaped)
+        (some ([0x00, 0x20] ++ List.replicate 32 1)) false
+      = (Algo.segwit, p2pkhOf (List.replicate 20 0xaa))
+    ∧ sighashDispatch ([0xa9, 0x14] ++ List.replicate 20 2 ++ [0x87]) (some exWpkhShaped)
+        (some ([0x00, 0x20] ++ List.replicate 32 1)) false
+      ≠ (Algo.segwit, exWpkhShaped) := by decide
+
+/-- … while for a bare P2SH whose redeem script has that shape the exclusion only separates it from
+    `dispatch_p2sh_p2wpkh`: this IS P2SH-P2WPKH (BIP143 digest over the P2PKH script code), not a legacy input -/
+theorem dispatch_p2sh_legacy_wpkh_shaped_is_segwit :
+    sighashDispatch ([0xa9, 0x14] ++ List.replicate 20 2 ++ [0x87]) none (some exWpkhShaped) false
+      = (Algo.segwit, p2pkhOf (List.replicate 20 0xaa)) := by decide
+
 /-- P2PKH: legacy, script code is the scriptPubKey -/
 theorem dispatch_p2pkh (h20 : Bytes) (hl : h20.length = 20) :
     sighashDispatch (p2pkhOf h20) none none false = (Algo.legacy, p2pkhOf h20) := by
   simp [sighashDispatch, scriptType, truthy, hl, p2pkhOf]
 
-/-- bare P2SH (e.g. legacy multisig): legacy, script code is the redeem script -/
+/-- bare P2SH (e.g. legacy multisig): legacy, script code is the redeem script. `h1` / `h2` separate it from
+    P2SH-P2WPKH / P2SH-P2WSH (`dispatch_p2sh_legacy_wpkh_shaped_is_segwit`) -/
 theorem dispatch_p2sh_legacy (s20 rs : Bytes) (hs : s20.length = 20) (hne : rs ≠ [])
     (h1 : scriptType rs ≠ some "p2wpkh") (h2 : scriptType rs ≠ some "p2wsh") :
     sighashDispatch ([0xa9, 0x14] ++ s20 ++ [0x87]) none (some rs) false = (Algo.legacy, rs) := by
